@@ -91,6 +91,8 @@ def random_ldpc(rng, count, kmax, cbs=(None,), apis=("recv", "setavail"), payloa
             for _ in range(rng.randint(1, 3)):
                 sub.insert(rng.randrange(len(sub) + 1), rng.choice(sub))
         api = rng.choice(apis)
+        if api == "setavail" and rng.random() < 0.25:
+            api = "mixed"
         if api == "setavail":
             sub = sorted(set(sub))
         fin = rng.choice(finish_choices)
@@ -211,6 +213,8 @@ def random_rs(rng, count, nmax, cbs=(None,), apis=("recv", "setavail"), payloads
         if rng.random() < 0.3 and sub:
             sub.insert(rng.randrange(len(sub) + 1), rng.choice(sub))
         api = rng.choice(apis)
+        if api == "setavail" and rng.random() < 0.25:
+            api = "mixed"
         if api == "setavail":
             sub = sorted(set(sub))
         fin = rng.choice([True, True, False])
